@@ -275,6 +275,8 @@ func init() {
 				Bound: "every multiset of 5..7 edges over the 15 pairs u<v of 6 nodes (DAGs; the space where network simplex pivots)"},
 			{Name: "macro-3", Space: spaceMacro(3, false), Eval: stdEval("C03", staticGrid(gridSpec{P1: allP1, P2: allP2, P4: []int{1}, P5: []int{0}, SZ: []int{2}}.list()), or),
 				Bound: "every graph built by <=3 gadget insertions (shapes with up to 13 edges) x {greedy,dfs} x {ns,lp} x valign x per-node sizes"},
+			{Name: "pivot-rich-neighbourhood", Space: spaceSeeded(pivotRichSeeds, tierPick(tier, 1, 2)), Eval: stdEval("C03", staticGrid(gridSpec{P1: []int{0}, P2: []int{0}, P4: []int{1}, P5: []int{0}, SZ: []int{1}}.list()), or),
+				Bound: "every state within 1 (thorough 2) edit operations of 19 recorded DAGs on which the simplex makes 4..5 pivots (8..10 nodes, 11..15 edges) x ns layering"},
 			{Name: "seeds", Space: spaceSeeded(seedWitnesses, tierPick(tier, 1, 2)), Eval: stdEval("C03", staticGrid(cheap), or),
 				Bound: "all states within 1 (thorough 2) edit operations of the recorded witnesses"},
 			{Name: "DS7", Space: spaceBothOrders(spaceDS(7, 9, tierPick(tier, 10, 12))), Eval: stdEval("C03", staticGrid(gridSpec{P1: []int{0}, P2: []int{0}, P4: []int{1}, P5: []int{0}, SZ: []int{1}}.list()), or),
